@@ -1,13 +1,18 @@
 //! simcheck — driver for the checks that need no thread scheduler (engines E1, E2, E4).
 
 mod e1;
+mod props;
 
 use sim_core::driver::{parse_options, run_check, Check};
 
 fn pick(id: &str) -> Option<Box<dyn Check>> {
     match id {
+        "C05" => Some(Box::new(props::C05)),
         "C06" => Some(Box::new(e1::checks::C06)),
+        "C07" => Some(Box::new(e1::checks2::C07)),
+        "C18" => Some(Box::new(e1::checks2::C18)),
         "C19" => Some(Box::new(e1::checks::C19)),
+        "C20" => Some(Box::new(props::C20)),
         _ => None,
     }
 }
